@@ -69,8 +69,13 @@ pub fn run(tier: &str, seed: u64, out: &str) {
         if prior == "previous generation" { let _ = run_cli(&root, &spec.to_string_lossy(), &dest.to_string_lossy(), &c.cfg, 20); }
         if prior == "interrupted previous generation" {
             // a run that died while writing its k-th file (the crash hook of the instrumented build), then the run under test
-            let plan = format!("{}:{}", (i / 7) % 9, 10 + (i % 40));
-            let _ = run_cli_env(&root, &spec.to_string_lossy(), &dest.to_string_lossy(), &c.cfg, 20, &[("LIBNINJA_VERIF_CRASH", plan)]);
+            // ... or was killed by the operating system for exceeding a file-size limit
+            if (i / 7) % 2 == 0 {
+                let plan = format!("{}:{}", (i / 7) % 9, 10 + (i % 40));
+                let _ = run_cli_env(&root, &spec.to_string_lossy(), &dest.to_string_lossy(), &c.cfg, 20, &[("LIBNINJA_VERIF_CRASH", plan)]);
+            } else {
+                let _ = run_cli_env(&root, &spec.to_string_lossy(), &dest.to_string_lossy(), &c.cfg, 20, &[("LNV_ULIMIT_F", format!("{}", 1 + (i / 14) % 3))]);
+            }
         }
         if prior == "unrelated files" {
             let t: Tree = [("src/old_module.rs", "pub fn old() {}\n"), ("src/model/stale.rs", "pub struct Stale;\n"), ("examples/gone.rs", "fn main() {}\n"), ("README.md", "keep me\n"), ("src/keep.rs", "// libninja: static\npub fn mine() {}\n")]
@@ -106,6 +111,9 @@ pub fn run(tier: &str, seed: u64, out: &str) {
     // is the document in the domain `inD` of the Lean theorem `C01_extract_total`?
     let dreqs: Vec<String> = cases.iter().map(|c| match parse_spec(&serde_json::to_string(&c.doc).unwrap(), true) { Ok(s) => format!("(in_d {})", specio::spec(&s)), Err(_) => "(noop)".to_string() }).collect();
     let in_d: Vec<bool> = model::eval(&dreqs).iter().map(|m| m.trim() == "true").collect();
+    // ... and in `inD2` of `C01_requests_total` (input names of the name domain, well-formed path templates)?
+    let d2reqs: Vec<String> = dreqs.iter().map(|r| r.replacen("(in_d ", "(in_d2 ", 1)).collect();
+    for m in model::eval(&d2reqs) { rep.bump(&format!("document {} inD2 (hypothesis of C01_requests_total)", if m.trim() == "true" { "in" } else { "outside" })); }
     let mut nontrivial = 0u64;
     for (((c, r), m), ind) in cases.iter().zip(runs.iter()).zip(mods.iter()).zip(in_d.iter()) {
         rep.bump(&format!("document {} the theorem's domain inD, generation {}", if *ind { "in" } else { "outside" }, if r.status == "exit 0" { "succeeded" } else { "failed" }));
